@@ -220,6 +220,11 @@ pub fn gen(prop: &str, tier: &str, seed: u64, out: &mut Vec<String>) {
                         for &ml in &mls {
                             out.push(format!("plan {size} {bs} {ml} {}", nat_list(q)));
                         }
+                        // "never descend into a fully selected subtree": min levels at and beyond the width of a u64
+                        if r.chance(1, 6) {
+                            let ml = *r.pick(&[62u32, 63, 64, 65, 128, 255]);
+                            out.push(format!("plan {size} {bs} {ml} {}", nat_list(q)));
+                        }
                         out.push(format!("rplan {size} {bs} {}", nat_list(q)));
                     }
                 }
